@@ -1,7 +1,7 @@
 use quote::{quote, ToTokens};
 use syn::{spanned::Spanned, Expr, Lit, Meta, Type};
 
-use super::path::path_to_string;
+use super::{path::path_to_string, r#type::ungroup};
 
 const INT_TYPES: [&str; 12] =
     ["u8", "u16", "u32", "u64", "u128", "usize", "i8", "i16", "i32", "i64", "i128", "isize"];
@@ -22,6 +22,8 @@ pub(crate) fn meta_2_expr(meta: &Meta) -> syn::Result<Expr> {
 
 #[inline]
 pub(crate) fn auto_adjust_expr(expr: Expr, ty: Option<&Type>) -> Expr {
+    let ty = ty.map(ungroup);
+
     match &expr {
         Expr::Lit(lit) => {
             match &lit.lit {
@@ -94,8 +96,8 @@ pub(crate) fn auto_adjust_expr(expr: Expr, ty: Option<&Type>) -> Expr {
                 },
                 Lit::ByteStr(_) => {
                     if let Some(Type::Reference(ty)) = ty {
-                        if let Type::Array(ty) = ty.elem.as_ref() {
-                            if let Type::Path(ty) = ty.elem.as_ref() {
+                        if let Type::Array(ty) = ungroup(ty.elem.as_ref()) {
+                            if let Type::Path(ty) = ungroup(ty.elem.as_ref()) {
                                 let ty_string = ty.into_token_stream().to_string();
 
                                 if ty_string == "u8" {
